@@ -405,7 +405,7 @@ pub fn run_worker<P: Prop>(p: &P, env: &Env, w: usize, nw: usize, outdir: &Path)
             cases: mine.min(u32::MAX as u64) as u32,
             rng_seed: RngSeed::Fixed(seed),
             failure_persistence: None,
-            max_shrink_iters: 400,
+            max_shrink_iters: 1500,
             max_global_rejects: u32::MAX,
             max_local_rejects: u32::MAX,
             ..PtConfig::default()
